@@ -45,6 +45,8 @@ F = [
  ("C02","F7","fixed",commit("HTML block types"),"known/C02/F7-html-block-in-quote.json","HTML block types 2-5 inside a block quote swallowed the marker of the line after their closing line"),
  ("C02","F19","known","","known/C02/F19-whitespace-only-code-line-in-item.json","a code-block line made only of spaces/tabs inside a list item loses its bytes (list item Continue treats it as a blank line; blank-line bookkeeping depends on that behaviour, so it is recorded, not repaired)"),
  ("C02","F20","known","","known/C02/F20-escaped-amp-in-url.json","[a](\\&amp;) renders href=\"&amp;\": a backslash-escaped '&' in a destination is unescaped first and then resolved as a character reference (URLEscape makes three passes; a repair needs a single-pass rewrite)"),
+ ("C01","F25","fixed",commit("non-string id"),"known/C01/F25-numeric-heading-id.json","'# a {id=1}' with WithAttribute and WithAutoHeadingID panicked (type assertion on a float64 id); reported by the sub-agent that seeded C01 and then rediscovered by the enriched attribute tokens"),
+ ("C01","F25b","fixed",commit("non-string id"),"known/C01/F25-setext-bool-id.json","the same for a Setext heading with a boolean id"),
 ]
 EXTRA = os.path.join(os.path.dirname(__file__), "known_extra.json")
 out = []
